@@ -774,6 +774,17 @@ def key_order(ctx, rule='C08.key-order'):
                                 used.add(pe.get('vi'))
             if used and used != {v}:
                 wrong.append((nv.get(v, v), sorted(nv.get(u, u) for u in used)))
+            if key[1] == 'size':
+                # the size of a key is the number of BYTES of its payload: `len()` of the payload (through derefs), nothing else
+                names = set()
+                for rb in region | {b}:
+                    tt = f.term(rb)
+                    cc = callee_of(tt) if tt['k'] == 'call' else None
+                    if cc:
+                        names.add(last_seg(strip_generics(cc['path'])))
+                extra = names - {'len', 'deref', 'as_ref', 'as_bytes', 'as_slice', 'as_str', 'borrow', 'size'}
+                if extra or not (names & {'len', 'size'}):
+                    wrong.append((nv.get(v, v), ['computed with %s, not the byte length of the payload' % ','.join(sorted(extra or names or {'no call'}))]))
         if miss or wrong:
             res.append(bad(rule, '%s | variant arms' % f.qual,
                            '%s does not give every variant its own payload (%s)' % (f.qual, '; '.join(['missing arms: %s' % miss] * bool(miss) + ['arm %s reads %s' % w for w in wrong])),
@@ -813,6 +824,16 @@ def iterator_overrides(ctx, rule='C08.iterator-overrides'):
                 direct.append((g.loc(bb), target.qual))
         if f.name == 'size_hint':
             direct = []             # a hint does not produce items
+        calls_own = False
+        for g in own:
+            for bb, t, target, c in F.call_sites(g):
+                if target is not None and target.trait and last_seg(target.trait) in ('Iterator', 'DoubleEndedIterator') and target.self_adt == f.self_adt:
+                    calls_own = True
+        if not direct and not calls_own and f.name != 'size_hint':
+            res.append(bad(rule, '%s | override does not go through next()' % f.qual,
+                           '%s, an override of a provided iterator method, never calls this type\'s own `next` (it forwards to an inner iterator or computes the answer itself): '
+                           'whatever `next` filters, skips or bounds is bypassed' % f.qual, where='%s:%d' % (f.file, f.line)))
+            continue
         if direct:
             res.append(bad(rule, '%s | override produces items without next()' % f.qual,
                            '%s, an override of a provided iterator method, calls %s at %s instead of getting its items from `next`: it bypasses what `next` does to skip emptied '
